@@ -1,7 +1,7 @@
 /-
 Helper lemmas for Properties/C07.lean, third part: `[bracket]` names (repair 417a203: the name regex
-is `^\[([^\]]*)\]`, a newline inside the brackets included; the name is still the matched text with
-`.strip("[]")`).
+is `^\[([^\]]*)\]`, a newline inside the brackets included; repair d4f87a6: the name is `group(1)`,
+the text between the brackets).
 -/
 import SqliteDissect.Proofs.SchemaQuoted
 
@@ -25,63 +25,16 @@ theorem bracketMatchLen_none : ∀ n : Str, ']' ∉ n → bracketMatchLen n = no
       have hc : (c == ']') = false := by simpa using fun e : c = ']' => h (by simp [e])
       simp [bracketMatchLen, hc, bracketMatchLen_none cs (fun hm => h (by simp [hm]))]
 
-/-! ### `.strip("[]")` -/
-
-theorem dropWhile_snoc (p : Char → Bool) (b : Char) (hb : p b = true) : ∀ n : Str,
-    (n ++ [b]).dropWhile p = if n.dropWhile p = [] then [] else n.dropWhile p ++ [b]
-  | [] => by simp [List.dropWhile, hb]
-  | c :: cs => by
-      by_cases hc : p c = true
-      · simp only [List.cons_append, List.dropWhile_cons, hc, if_true]
-        exact dropWhile_snoc p b hb cs
-      · simp [hc]
-
-/-- stripping a text that is wrapped in two strippable characters = stripping the inside -/
-theorem stripSet_wrapped (p : Char → Bool) (a b : Char) (ha : p a = true) (hb : p b = true) (n : Str) :
-    stripSet p (a :: n ++ [b]) = stripSet p n := by
-  unfold stripSet
-  have h1 : (a :: n ++ [b]).dropWhile p = (n ++ [b]).dropWhile p := by simp [ha]
-  rw [h1, dropWhile_snoc p b hb n]
-  by_cases he : n.dropWhile p = []
-  · simp [he]
-  · simp only [he, if_false, List.reverse_append, List.reverse_cons, List.reverse_nil, List.nil_append,
-      List.singleton_append, List.dropWhile_cons, hb, if_true]
-
-/-- a text whose first and last characters are not strippable is left alone -/
-theorem stripSet_id (p : Char → Bool) (n : Str) (hh : ∀ c, n.head? = some c → p c = false)
-    (hl : ∀ c, n.getLast? = some c → p c = false) : stripSet p n = n := by
-  cases n with
-  | nil => rfl
-  | cons c cs =>
-      have hc := hh c rfl
-      obtain ⟨xs, l, hx⟩ : ∃ xs l, c :: cs = xs ++ [l] :=
-        ⟨(c :: cs).dropLast, (c :: cs).getLast (List.cons_ne_nil _ _), (List.dropLast_concat_getLast (List.cons_ne_nil _ _)).symm⟩
-      have hlast : p l = false := hl l (by rw [hx]; simp)
-      unfold stripSet
-      have h1 : (c :: cs).dropWhile p = c :: cs := by simp [hc]
-      rw [h1, hx]
-      simp [hlast]
-
-theorem bracketStrip_open : bracketStripSet '[' = true := by decide
-theorem bracketStrip_close : bracketStripSet ']' = true := by decide
-
-theorem bracketStrip_iff (c : Char) : bracketStripSet c = true ↔ (c = '[' ∨ c = ']') := by
-  simp [bracketStripSet]
-
 /-! ### the name readers on a bracket name -/
 
-/-- The name of `[n]` (n without "]") is n with `.strip("[]")`: n without its leading and trailing
-"[" characters. -/
+/-- The name of `[n]` (n without "]") is n. -/
 theorem quotedName_bracket (n r : Str) (hn : ']' ∉ n) :
-    quotedName ('[' :: n ++ ']' :: r) = some (some (stripSet bracketStripSet n, n.length + 2)) := by
+    quotedName ('[' :: n ++ ']' :: r) = some (some (n, n.length + 2)) := by
   have hm := bracketMatchLen_first r n hn
-  have ht : ('[' :: (n ++ ']' :: r)).take (n.length + 2) = '[' :: n ++ [']'] := by
-    have : '[' :: (n ++ ']' :: r) = ('[' :: n ++ [']']) ++ r := by simp
-    rw [this]
-    exact List.take_left' (by simp)
+  have ht : (n ++ ']' :: r).take (n.length + 2 - 2) = n := by
+    rw [show n.length + 2 - 2 = n.length by omega]
+    exact List.take_left' rfl
   simp only [List.cons_append, quotedName, beq_self_eq_true, if_true, hm, Option.map_some, ht]
-  rw [show '[' :: (n ++ [']']) = '[' :: n ++ [']'] by simp,
-    stripSet_wrapped bracketStripSet '[' ']' bracketStrip_open bracketStrip_close n]
 
 theorem drop_bracket (n r : Str) : ('[' :: n ++ ']' :: r).drop (n.length + 2) = r := by
   have : '[' :: n ++ ']' :: r = ('[' :: n ++ [']']) ++ r := by simp
@@ -89,7 +42,7 @@ theorem drop_bracket (n r : Str) : ('[' :: n ++ ']' :: r).drop (n.length + 2) = 
   exact List.drop_left' (by simp)
 
 theorem rowNameAndRest_bracket (n r : Str) (hn : ']' ∉ n) :
-    rowNameAndRest ('[' :: n ++ ']' :: r) = .ok (stripSet bracketStripSet n, r) := by
+    rowNameAndRest ('[' :: n ++ ']' :: r) = .ok (n, r) := by
   have h := quotedName_bracket n r hn
   have hd := drop_bracket n r
   simp only [List.cons_append] at h hd ⊢
@@ -97,35 +50,12 @@ theorem rowNameAndRest_bracket (n r : Str) (hn : ']' ∉ n) :
   simp only [h, hd]
 
 theorem columnNameAndRest_bracket (n r : Str) (hn : ']' ∉ n) :
-    columnNameAndRest ('[' :: n ++ ']' :: r) = .ok (stripSet bracketStripSet n, strip r) := by
+    columnNameAndRest ('[' :: n ++ ']' :: r) = .ok (n, strip r) := by
   have h := quotedName_bracket n r hn
   have hd := drop_bracket n r
   simp only [List.cons_append] at h hd ⊢
   rw [columnNameAndRest]
   simp only [h, hd]
-
-/-- the names that `.strip("[]")` leaves alone: not beginning and not ending with "[" -/
-structure BracketSafe (n : Str) : Prop where
-  no_close : ']' ∉ n
-  head_ok : n.head? ≠ some '['
-  last_ok : n.getLast? ≠ some '['
-
-theorem stripSet_bracketSafe (n : Str) (h : BracketSafe n) : stripSet bracketStripSet n = n := by
-  apply stripSet_id
-  · intro c hc
-    cases hp : bracketStripSet c with
-    | false => rfl
-    | true =>
-        rcases (bracketStrip_iff c).1 hp with rfl | rfl
-        · exact absurd hc h.head_ok
-        · exact absurd (List.mem_of_mem_head? hc) h.no_close
-  · intro c hc
-    cases hp : bracketStripSet c with
-    | false => rfl
-    | true =>
-        rcases (bracketStrip_iff c).1 hp with rfl | rfl
-        · exact absurd hc h.last_ok
-        · exact absurd (List.mem_of_getLast? hc) h.no_close
 
 /-! ### `ColumnDefinition` on bracket names -/
 
@@ -134,7 +64,7 @@ theorem parseColumn_bracket_ws (n : Str) (hs : QuotedSafe n) (hn : ']' ∉ n) (w
     (ht : Ident t) (htne : t ≠ []) (hws : ∀ w ∈ ws, isSpace w = true) (hwne : ws ≠ [])
     (hkw : beginsWithKeyword Spec.Ddl.columnKeywords t = false) :
     parseColumn ('[' :: n ++ [']'] ++ ws ++ t) =
-      .ok { name := stripSet bracketStripSet n, derived := some (upper t), dataType := getDataType (upper t),
+      .ok { name := n, derived := some (upper t), dataType := getDataType (upper t),
             affinity := Spec.typeAffinity t, hasConstraints := false } := by
   have hspo : isSpace '[' = false := by decide
   have hspc : isSpace ']' = false := by decide
@@ -174,7 +104,7 @@ theorem parseColumn_bracket_ws (n : Str) (hs : QuotedSafe n) (hn : ']' ∉ n) (w
     rw [e, collapseGo_noAdj isSpace ']' (ws ++ t) hspc _ hna, collapseGo]
     simp only [hspc, Bool.false_eq_true, if_false, hsep]
   have hsepsp := sepOf_space ws hwne hws
-  have hname : columnNameAndRest ('[' :: n ++ ']' :: sepOf ws :: t) = .ok (stripSet bracketStripSet n, t) := by
+  have hname : columnNameAndRest ('[' :: n ++ ']' :: sepOf ws :: t) = .ok (n, t) := by
     rw [columnNameAndRest_bracket n (sepOf ws :: t) hn, strip_cons_space _ _ hsepsp, strip_word t ht]
   simp only [parseColumn, h1, bind, Except.bind, hstrip, hcollapse, hname,
     segmentLoop_word t ht htne hkw t.length, haff]
@@ -182,7 +112,7 @@ theorem parseColumn_bracket_ws (n : Str) (hs : QuotedSafe n) (hn : ']' ∉ n) (w
 /-- `[n]` without a type -/
 theorem parseColumn_bracket_bare (n : Str) (hs : QuotedSafe n) (hn : ']' ∉ n) :
     parseColumn ('[' :: n ++ [']']) =
-      .ok { name := stripSet bracketStripSet n, derived := none, dataType := dtNotSpecified, affinity := .blob,
+      .ok { name := n, derived := none, dataType := dtNotSpecified, affinity := .blob,
             hasConstraints := false } := by
   have hspo : isSpace '[' = false := by decide
   have hspc : isSpace ']' = false := by decide
@@ -207,46 +137,62 @@ theorem parseColumn_bracket_bare (n : Str) (hs : QuotedSafe n) (hn : ']' ∉ n) 
     unfold collapse
     rw [e, collapseGo_noAdj isSpace ']' [] hspc _ hna]
     simp [collapseGo, hspc]
-  have hname : columnNameAndRest ('[' :: n ++ [']']) = .ok (stripSet bracketStripSet n, []) := by
+  have hname : columnNameAndRest ('[' :: n ++ [']']) = .ok (n, []) := by
     have := columnNameAndRest_bracket n [] hn
     simpa [strip, lstrip, rstrip] using this
   simp only [parseColumn, h1, bind, Except.bind, hstrip, hcollapse, hname, segmentLoop_end]
   rfl
 
 /-- the statement used by Properties/C07 -/
-theorem parseColumn_bracketed (d : ColDef) (hb : BracketSafe d.name) (hname : QuotedSafe d.name)
+theorem parseColumn_bracketed (d : ColDef) (hn : ']' ∉ d.name) (hname : QuotedSafe d.name)
     (hty : ∀ t, d.type = some t → isIdent t = true ∧ beginsWithKeyword columnKeywords t = false)
     (ws : Str) (hwne : ws ≠ []) (hws : ∀ w ∈ ws, isSpace w = true) :
     ∃ col, parseColumn ('[' :: d.name ++ [']'] ++ (match d.type with | none => [] | some t => ws ++ t)) = .ok col ∧
       col.name = d.name ∧ col.affinity = d.affinity := by
   obtain ⟨name, type⟩ := d
-  have hst := stripSet_bracketSafe name hb
   cases type with
   | none =>
-      refine ⟨_, by simpa using parseColumn_bracket_bare name hname hb.no_close, hst, rfl⟩
+      refine ⟨_, by simpa using parseColumn_bracket_bare name hname hn, rfl, rfl⟩
   | some t =>
       obtain ⟨ht, hkw⟩ := hty t rfl
       simp only [isIdent, Bool.and_eq_true, Bool.not_eq_true', List.all_eq_true] at ht
       obtain ⟨htne, htid⟩ := ht
       have htne' : t ≠ [] := by intro e; subst e; simp at htne
-      have := parseColumn_bracket_ws name hname hb.no_close ws t htid htne' hws hwne hkw
-      refine ⟨_, by simpa [List.append_assoc] using this, hst, ?_⟩
+      have := parseColumn_bracket_ws name hname hn ws t htid htne' hws hwne hkw
+      refine ⟨_, by simpa [List.append_assoc] using this, rfl, ?_⟩
       simp [ColDef.affinity, Spec.columnAffinity, htne']
 
+/-! ### what is still not true for bracket names -/
 
-/-! ### what `.strip("[]")` gets wrong -/
+/-- the former witnesses of C07-18 (repaired by d4f87a6): `[[a]` is `[a`, `[a[]` is `a[`, `[[]` is `[` -/
+theorem bracket_edge_kept :
+    (parseColumn ['[', '[', 'a', ']', ' ', 'I', 'N', 'T']).toOption.map (·.name) = some ['[', 'a'] ∧
+    (parseColumn ['[', 'a', '[', ']', ' ', 'I', 'N', 'T']).toOption.map (·.name) = some ['a', '['] ∧
+    (parseColumn ['[', '[', ']']).toOption.map (·.name) = some ['['] := by
+  exact ⟨by decide +kernel, by decide +kernel, by decide +kernel⟩
 
-/-- `[[a]` is SQLite's name `[a`; the code reads `a` (new finding C07-18) -/
-theorem bracket_edge_renamed :
-    (parseColumn ['[', '[', 'a', ']', ' ', 'I', 'N', 'T']).toOption.map (·.name) = some ['a'] ∧
-    (parseColumn ['[', 'a', '[', ']', ' ', 'I', 'N', 'T']).toOption.map (·.name) = some ['a'] := by
-  exact ⟨by decide +kernel, by decide +kernel⟩
+/-- open finding C07-09 again: the column `[a/b]` is rejected (ValueError from the comment stripper) -/
+theorem bracket_slash_rejected : errorOf (parseColumn ('[' :: nameSlash ++ [']'])) = some .valueError := by
+  decide +kernel
+
+/-- open finding C07-13 again: the column `[a  b]` is reported as `a b` -/
+theorem bracket_two_spaces_renamed :
+    (parseColumn ('[' :: nameTwoSpaces ++ [']'])).toOption.map (·.name) = some ['a', ' ', 'b'] := by
+  decide +kernel
 
 theorem bracket_counterexample :
     ¬ ∀ (n : Str), ']' ∉ n → n ≠ [] → ∃ col, parseColumn ('[' :: n ++ [']']) = .ok col ∧ col.name = n := by
   intro h
-  obtain ⟨col, h1, h2⟩ := h ['[', 'a'] (by decide) (by decide)
-  have h3 : (parseColumn ('[' :: ['[', 'a'] ++ [']'])).toOption.map (·.name) = some ['a'] := by decide +kernel
+  obtain ⟨col, h1, _⟩ := h nameSlash (by decide) (by decide)
+  have h3 := bracket_slash_rejected
+  rw [h1] at h3
+  cases h3
+
+theorem bracket_counterexample_whitespace :
+    ¬ ∀ (n : Str), ']' ∉ n → '/' ∉ n → '-' ∉ n → ∃ col, parseColumn ('[' :: n ++ [']']) = .ok col ∧ col.name = n := by
+  intro h
+  obtain ⟨col, h1, h2⟩ := h nameTwoSpaces (by decide) (by decide) (by decide)
+  have h3 := bracket_two_spaces_renamed
   rw [h1] at h3
   simp only [Except.toOption, Option.map_some, Option.some.injEq] at h3
   rw [h2] at h3
